@@ -77,7 +77,7 @@ FAMILIES = {
         "mc": {"module": "MCMP", "cfg": {"quick": "MP-mc-quick.cfg", "thorough": ["MP-mc-quick.cfg", "MP-mc-thorough.cfg"]}, "timeout": {"quick": 300, "thorough": 1800}},
         "trace_module": "MPTrace", "trace_cfg": "MP-trace.cfg",
         "variants": [{"vh_cfg": {"L": 6}, "sim_subst": {}}],
-        "tiers": {"quick": {"rand": 6, "rlen": 100000, "chunks": 6}, "thorough": {"rand": 6, "rlen": 100000, "chunks": 6, "vh_cfg": {"L": 8}}},
+        "tiers": {"quick": {"rand": 8, "rlen": 100000, "chunks": 8}, "thorough": {"rand": 8, "rlen": 100000, "chunks": 8, "vh_cfg": {"L": 8}}},
     },
     "notif": {
         "fix_all": ["blockentry", "overwrite"], "trace_fix": [],
@@ -346,7 +346,7 @@ LEDGER = {
     "C09": (["LG_RnsBacked", "LG_Conserve"], "LG_C09", [("refund", ["LG_RnsBacked"], "Ledger-mc-quick.cfg"), ("passfee", ["LG_RnsBacked"], "Ledger-mc-quick.cfg")]),
     "C12": (["LG_GaugeHold"], "LG_C12", []),
     "C13": (["LG_Supply", "LG_MintOut", "LG_MintSplit"], "LG_C13", [("fullmint", ["PStep"], "Ledger-mc-quick.cfg")]),
-    "C15": (["LG_CollBacked"], "LG_C15", []),
+    "C15": (["LG_CollBacked", "LG_CollExact"], "LG_C15", []),
     "C16": (["LG_FailFree"], "LG_C16", []),
 }
 # C07 at whole-application level (extreme sizes, all modules interleaved): plan usage never negative, within the space bought, equal to the footprint
